@@ -161,6 +161,9 @@ def load(cfg, paths):
         p.load_unit(path)
     for f in p.functions.values():
         PROG_OF[id(f)] = p
+    # file-local helpers that did not exist when the rule tables were written are substituted back into their callers (jpv/normalise.py)
+    from . import normalise
+    p.dissolved = normalise.dissolve_new_helpers(p)
     return p
 
 
